@@ -174,7 +174,7 @@ uint32_t Ruleset__run_action_chain(Ruleset *self, vecit_uptr_BasePlugin action_c
                          : (self->pause_actions_until_.sec == g_last_now.sec + self->post_action_delay_ &&
                             self->pause_actions_until_.nsec == g_last_now.nsec))
       : TP_EQ(self->pause_actions_until_, __CPROVER_old(self->pause_actions_until_)))
-  __CPROVER_ensures(!self->plugin_overrode_post_action_delay_) /*@C05*/
+  __CPROVER_ensures(!self->plugin_overrode_post_action_delay_) /*@C05,C02*/
   __CPROVER_ensures(TP_VALID(self->pause_actions_until_) || self->pause_actions_until_.sec >= (1L << 40))
   __CPROVER_ensures(ghost_exc == 0);
 
@@ -239,6 +239,9 @@ uint32_t Ruleset__runOnceImpl(Ruleset *self, OomdContext context)
                         : g_action_runs == 0))
                   : (g_action_runs == 0 && __CPROVER_return_value == 0))
       : 1)
+  /* a chain left suspended by this tick keeps ITS OWN copy of the context it ran with (ruleset, detector group, run uuid, hook
+     deadline, target) - it must survive the clean-up below, or the resumed kill reports and times out against nothing */ /*@C06,C07,C17*/
+  __CPROVER_ensures((self->active_action_chain_state_.has && g_action_runs > 0) ? ACTX_EQ(ACTX_OF(self->active_action_chain_state_.val.action_context), g_chain_ctx) : 1)
   /* the context is left clean on every path */ /*@C02,C05,C06*/
   __CPROVER_ensures(ACTX_CLEAR(g_ctx_action) && !g_ctx_invoking.has && !g_ctx_rscg.has)
   __CPROVER_ensures(RS_STATE_WF(self) && !self->plugin_overrode_post_action_delay_)
